@@ -19,7 +19,7 @@ theorem c04_compMerge_del_emptied (rec : Node → Node → Except Err (Node × B
       | none =>
         match maybePromote (replaceOtherFlags of sf) ok ocs (.comp sf sk []) with
         | .error e => .error e
-        | .ok (res, same) => .ok (res, !same) := by
+        | .ok (res, same) => .ok (propagate res, !same) := by
   simp only [compMerge, hdel, if_true, hfil, Node.children, List.isEmpty_nil, hprio, Bool.and_self]
   rfl
 
@@ -49,7 +49,7 @@ theorem c04_compMerge_del_dict (rec : Node → Node → Except Err (Node × Bool
           match maybePromote (replaceOtherFlags of sf) ok ocs
               (.comp sf sk (keptChildren (maybeKeep (.comp of ok ocs)) [] scs)) with
           | .error e => .error e
-          | .ok (res, same) => .ok (res, !same)
+          | .ok (res, same) => .ok (propagate res, !same)
       else
         match mergeLoop rec sf sk (keptChildren (maybeKeep (.comp of ok ocs)) [] scs) ocs with
         | .error e => .error e
@@ -167,6 +167,16 @@ def RecDelFaithful (rec : Node → Node → Except Err (Node × Bool)) : Prop :=
 theorem c04_flags_setFlags (n : Node) (f : Flags) : (n.setFlags f).flags = f := by
   cases n <;> rfl
 
+theorem c04_flags_propagate (n : Node) : (propagate n).flags = n.flags := by
+  cases n with
+  | leaf f k => rfl
+  | comp f k cs => simp only [propagate]; split <;> rfl
+
+/-- nothing to hand down into an empty container -/
+theorem c04_propagate_empty (f : Flags) (k : CompKind) : propagate (.comp f k []) = .comp f k [] := by
+  simp only [propagate]
+  split <;> rfl
+
 theorem c04_mergeF_delFaithful (fuel : Nat) : RecDelFaithful (mergeF fuel) := by
   intro c v nw hc h
   cases fuel with
@@ -179,7 +189,7 @@ theorem c04_mergeF_delFaithful (fuel : Nat) : RecDelFaithful (mergeF fuel) := by
       split at h
       · injection h with h; injection h with _ h2; cases h2
       · injection h with h; injection h with h1 _
-        rw [← h1, c04_flags_setFlags]; rfl
+        rw [← h1, c04_flags_propagate, c04_flags_setFlags]; rfl
 
 /-- no value of the newer mapping carries an explicit `!del` -/
 def noExplicitDel : List (Key × Node) → Bool
@@ -349,7 +359,7 @@ theorem c04_finishMerge_dict_keys (sf of : Flags) (scs' ocs : List (Key × Node)
     exact ⟨rfl, h2.symm⟩
   · injection h with h
     injection h with h h2
-    rw [← h]
+    rw [← h, c04_akeys_children_propagate]
     exact ⟨rfl, h2.symm⟩
 
 /-! ### `get_node` after an in-place replacement -/
